@@ -141,6 +141,24 @@ CLAIMS = {
         "by the real classes is recorded and the multiset equals the Float model's list bit for bit (all classes x methods x n<=6 x order<=8 "
         "x dim<=5 x step generators), plus the number of evaluations at x itself.",
    technique="Lean 4 proof of admissibility of the modelled point lists + bit-exact correspondence of recorded arguments"),
+ 'C03': dict(
+   text="Lean 4 theorems: jacobian_layout2 / jacobian_layout3 (for every n, m, k the flat position the transpose+ravel of _vstack gives to the "
+        "quotient of f_i (f[i,l]) with respect to x_j is i*n+j ((i*n+j)*k+l), i.e. [i,j] ([i,j,l]) after the reshape; the step stored there is "
+        "h[j], the step of the differentiated coordinate); result shapes (m,n), (m,n,k), (1,n), Gradient (n,) / 0-d; jacobian_affine_exact: "
+        "entry (i,j) of the Jacobian of an affine map is the n=1 derivative pipeline on a degree-1 polynomial, so every candidate equals "
+        "A_ij for central/forward/backward (corollary of C01's theorem). Tie: layout engine (slopes that encode (j,i,l)) on the real "
+        "Jacobian for all shapes incl. degenerate ones; search on affine / nonlinear maps, Gradient = Jacobian row, directionaldiff = "
+        "Gradient.v/|v|. Partial: complex/multicomplex exactness on affine maps and rounding are explored, not proved.",
+   technique="Lean 4 proof of tensor layout (index arithmetic) + corollary of the pipeline exactness theorem; layout correspondence"),
+ 'C04': dict(
+   text="Lean 4 theorems: hessian_fdel_symmetric / hessFlat_symmetric (mirrored fill: entry (i,j) = entry (j,i) at every step); "
+        "bestEstimate_equal_columns (columns with identical data give identical results, hence exact symmetry of the returned matrix); "
+        "hessForward/Central/Central2_quadratic(+_diag): for every f that is quadratic along the coordinate pair, every step h, every n, the "
+        "three real-step formulas (Ridout eq. 7, 9, 8) return the exact second derivative; quadratic_form_along: c + g.x + x'Qx/2 with "
+        "symmetric Q satisfies that hypothesis for every n; hessian_constant_table (all later stages return Q[i][j]); hessdiag_exact "
+        "(Hessdiag = n=2 pipeline on the line function, exact below 2 + method_order). Tie: the four real-step difference functions on "
+        "dyadic polynomials = Rat model exactly. Partial: Ridout eq. 10 (complex) and the bicomplex formula are covered by the search only.",
+   technique="Lean 4 proof (symmetry by construction, exactness on quadratics by ring identities) + exact correspondence on dyadic data"),
 }
 
 checks = []
